@@ -21,12 +21,17 @@ NOTE = ("Trusted: the gocv translator (SSA->SMT, memory model, panic edges), the
 
 CLAIMS = {
  "C01": "Unbounded proofs of the leaf predicates the script verdict is assembled from, each against a closed-form spec written from the BIP text: GetOpcode (exact opcode / push bytes / length for all four push encodings, progress >= 1), IsPushOnly and the sig-op scanners (termination, index safety), IsP2SH, IsWitnessProgram (BIP141), DecodeOP_N, IsValidSignatureEncoding (= the nine BIP66 rules, no index out of range for any byte string), IsDefinedHashtypeSignature, pubkey-encoding predicates and their flag logic, checkMinimalPush (BIP62), CheckSequence (BIP112). Equality of the composed verdict of evalScript with consensus is NOT decided.",
+ "C03": "Unbounded proofs of the acceptance preconditions of the verifiers, for every byte string: ecdsa_verify returns 1 only if both DER integers lie in [1, n-1]; Signature.ParseBytes is total (no index out of range) and on success R and S are exactly the big-endian values of the two INTEGER bodies; XY.ParsePubkey / ParseXOnlyPubkey accept only coordinates below p and return IsValid() of the resulting point (on-curve predicate uninterpreted, IsValid and SetXO assumed); SchnorrVerify returns true only if len(sig)=64, r < p, s < n and the key is a valid x coordinate. The verification equations over the group (Signature.Verify, ECmult), signing, low-S/DER canonicity of own signatures and equality with reference outputs are NOT decided (assumed contracts listed in the evidence).",
  "C04": "Unbounded proofs: CheckTransaction returns nil only if inputs and outputs are non-empty, 4*NoWitSize <= 4e6, a coinbase script is 2..100 bytes, no non-coinbase input is null, every output value <= MAX_MONEY and the mathematical sum of outputs <= MAX_MONEY (recursive spec sum, no wrap); IsCoinBase/IsNull/allzeros exact; GetBlockReward = floor(50e8 / 2^floor(h/210000)), 0 from 33 halvings on; sig-op scanners terminate and stay in bounds. Input-side sums, maturity, UTXO existence and atomicity inside commitTxs are NOT decided.",
+ "C05": "Unbounded proofs of context-free pieces: Tx.IsFinal equals Bitcoin's IsFinalTx; Tx.Weight = 3*stripped+total and Tx.VSize = ceil(weight/4) (BIP141); UintToScript(n) is the minimal script-number push of n (OP_0, OP_1..16, or the shortest positive little-endian encoding) as BIP34 requires. The compact-target codec, proof-of-work comparison, retargeting, median time, merkle/mutation and the orchestration in PreCheckBlock/PostCheckBlock are NOT decided yet.",
  "C08": "Limb layer of the 5x52 field, proved for all limb values within the stated magnitudes, in exact integer arithmetic: Field.Mul and Field.Sqr (inputs of magnitude <= 8): no 64-bit or 128-bit intermediate overflows - every discarded bits.Add64 carry is zero -, the result has magnitude 1 and value(r) = value(a)*value(b) (mod p), with r allowed to alias a and b; Normalize (magnitude <= 32): canonical output < p, congruent to the input; Negate, SetAdd, MulInt: no limb over/underflow, exact value equations, magnitude bookkeeping; SetInt, IsZero, IsOdd, Equals. The congruences are discharged by a mod-witness tactic whose output (quotient polynomial K and remainder Rest) is checked by the solver, not trusted. NOT decided yet: SetB32/GetB32, Inv/Sqrt chains, the Jacobian group formulas, the precomputed tables, ECmult/ECmultGen; the 10x26 representation is not compiled on this platform.",
  "C09": "Unbounded proof, per function and for every input byte string, of: CompactSize decoding (VLen/VULe: exact value, size, canonical-only, non-negative) and encoding (PutULe/PutVlen/VLenSize) against closed-form spec functions; NewTxIn/NewTxOut/TxInSize/TxOutSize exact consumed size; NewTx: total (every panic is recovered into (nil,0)), consumes between 10 and len(b) bytes, no nil input/output, witness-count = input-count, a witness-flagged tx carries a witness, every make() bounded by len(b), nothing but fresh memory written; TxSize: result within [0,len(b)], every loop iteration consumes input (variant len(b)-offs). Byte-exact re-encoding, txid/wtxid and block-level decoding are not decided by this check yet.",
  "C10": "Unbounded proofs: CompressAmount equals the closed-form amount code and DecompressAmount its inverse, with the round-trip lemma Decompress(Compress(n)) = n for all n < 2^60 (split by exponent 0..9); CompressScript/DecompressScript byte-exact contracts and the round trip Decompress(Compress(s)) = s for P2PKH, P2SH and compressed-key P2PK (harness proved from the two contracts), verbatim path (nil) for everything else; CompactSize codec shared with C09. Record (de)serialisers (SerializeU/C, NewUtxoRec*) and snapshot files are NOT decided; the uncompressed-key P2PK path rests on assumed secp256k1 contracts.",
 }
-ORDER = ["C01", "C04", "C08", "C09", "C10"]
+CLAIMS_EXTRA = {
+ "C15": "Unbounded proofs: bech32_polymod_step equals BIP173's step function with BIP173's five generator constants (structure and every constant pinned, xor uninterpreted); the two final constants are 1 and 0x2bc830a3; bech32.Decode is total on every string (no index out of range, loops bounded by the input) and accepts only the BIP173 shape (8..90 characters, non-empty hrp, separator, data symbols < 32, six checksum symbols). The checksum algebra (decode after encode, error detection), bit regrouping, segwit address rules and Base58 are NOT decided yet.",
+}
+ORDER = ["C01", "C03", "C04", "C05", "C08", "C09", "C10", "C15"]
 
 def main():
     hooks = subprocess.check_output(['git', '-C', '/repo', 'log', '--format=%H %s']).decode().splitlines()
@@ -47,6 +52,7 @@ def main():
         "notes": "Known findings and fixed defects: /verif/known_findings.json. Baseline of discharged obligations: /verif/baseline/obligations.json. Witness tests: /verif/witness.",
     }
     for p in ORDER:
+        CLAIMS.update(CLAIMS_EXTRA)
         m["checks"].append({
             "property_id": p,
             "quick_cmd": "./check %s quick" % p,
